@@ -419,3 +419,15 @@ Proof.
   split; [exact Hr|split; [|split; [exact Hs|exact Ha]]].
   intros a d. rewrite Hb. unfold spec_fail_delta. ring.
 Qed.
+
+(** recheck: the same mempool function under the configuration reached by the history *)
+Lemma recheck_rejects c0 ops bs k b :
+  let c := brun c0 ops in
+  wf_cfg (ch_cfg c) -> Forall (fun b => wf_tx (b_tx b)) bs ->
+  nth_error bs k = Some b ->
+  ~ covered_pre (ch_cfg c) (b_tx b) (routed_top (b_tx b)) ->
+  nth_error (mempool (ch_cfg c) (ch_st c) bs) k <> Some true.
+Proof.
+  intros c Hc Hw Hb Hn Hadm. apply Hn.
+  exact (mempool_admitted_covered (ch_cfg c) bs Hc Hw (ch_st c) k b Hb Hadm).
+Qed.
